@@ -2,7 +2,7 @@
    Only ExtrOcamlBasic (bool, option, list, pairs, unit -> OCaml natives);
    Z, positive, N, nat stay extracted datatypes; no Extract Constant. *)
 From Coq Require Import Extraction ExtrOcamlBasic.
-From PV Require Import Base Heap Rng NND Diversify SearchGraph RPTree.
+From PV Require Import Base Heap Rng NND Diversify SearchGraph RPTree Search.
 Extraction Language OCaml.
 Set Extraction KeepSingleton.
 Extraction "../ocaml/model.ml"
@@ -17,4 +17,5 @@ Extraction "../ocaml/model.ml"
   NND.thresholds NND.deheap_graph NND.nn_descent
   Diversify.diversify Diversify.diversify_row Diversify.diversify_csr_row
   SearchGraph.degree_prune_row SearchGraph.search_graph_chk
-  RPTree.make_euclidean_tree RPTree.convert_tree_format RPTree.leaf_rows RPTree.flat_chk RPTree.linked_chk RPTree.descend.
+  RPTree.make_euclidean_tree RPTree.convert_tree_format RPTree.leaf_rows RPTree.flat_chk RPTree.linked_chk RPTree.descend
+  Search.search_one Search.translate Search.fmul32.
